@@ -86,6 +86,7 @@ pub fn cases(rng: &mut Rng, tier: &str) -> (Vec<Case>, bool) {
                         7 => gen::token_soup(rng),
                         8 => "wtick".to_string(),
                         9 => "wbreak".to_string(),
+                        10 => rng.pick(&["", " ", "\t ", "STATS", "stats", "LIST"]).to_string(),
                         _ => gen::simple_statement(rng),
                     };
                     if text == "wtick" || text == "wbreak" {
@@ -109,6 +110,47 @@ pub fn cases(rng: &mut Rng, tier: &str) -> (Vec<Case>, bool) {
         }).collect::<Vec<_>>().join(" ; ");
         let checks = (0..ops.len()).filter(|i| ops[*i].starts_with('w') && !ops[*i].starts_with("wnew") && !ops[*i].starts_with("wseed")).map(|i| format!("web-ok {}", i)).collect();
         cases.push(Case { ops, checks, tag: kinds.iter().cloned().collect::<Vec<_>>().join("+"), nontrivial: kinds.len() >= 2, show });
+    }
+    // strings typed as INPUT replies live in the core's string pool until it collects them (on every submitted line, blank
+    // ones included); STATS reports the pool: adapter and core must agree after any mix of replies, breaks and blank lines
+    let g = if tier == "thorough" { 200 } else { 25 };
+    for _ in 0..g {
+        let mut ops = vec!["wnew".to_string(), "wseed 3".to_string(), "wsubmit".to_string()];
+        ops.push(ev("wsubmit", "10 INPUT A$"));
+        ops.push(ev("wsubmit", "20 GOTO 10"));
+        ops.push(ev("wsubmit", "RUN"));
+        for _ in 0..rng.range(1, 5) {
+            ops.push("wtick".to_string());
+            ops.push("wtick".to_string());
+            ops.push(ev("wsubmit", &rng.pick(&["abcde", "a much longer reply text", "x", "日本語", "q,r"])));
+        }
+        if rng.chance(1, 2) {
+            ops.push("wtick".to_string());
+        }
+        ops.push("wbreak".to_string());
+        for _ in 0..rng.range(0, 3) {
+            ops.push(ev("wsubmit", &rng.pick(&["", " ", "\t", "   "])));
+        }
+        ops.push(ev("wsubmit", "STATS"));
+        ops.push(ev("wsubmit", &rng.pick(&["", "PRINT A$", "CONT"])));
+        ops.push("wtick".to_string());
+        ops.push(ev("wsubmit", "STATS"));
+        let checks = (0..ops.len()).filter(|i| ops[*i].starts_with("wsubmit") || ops[*i] == "wtick" || ops[*i] == "wbreak").map(|i| format!("web-ok {}", i)).collect();
+        cases.push(Case { ops, checks, tag: "string-pool".into(), nontrivial: true, show: "INPUT replies, break, blank lines, STATS".into() });
+    }
+    // a single output batch far larger than anything a running program produces per tick: LIST of a long program
+    for len in [200usize, 257, 300, 1000] {
+        let mut ops = vec!["wnew".to_string(), "wseed 3".to_string(), "wsubmit".to_string()];
+        for i in 0..len {
+            ops.push(ev("wsubmit", &format!("{} PRINT {}", (i + 1) * 10, i)));
+        }
+        ops.push(ev("wsubmit", "LIST"));
+        ops.push(ev("wsubmit", "PRINT \"after\""));
+        ops.push(ev("wsubmit", "NEW"));
+        ops.push(ev("wsubmit", "LIST"));
+        ops.push(ev("wsubmit", "RUN"));
+        let checks = (0..ops.len()).filter(|i| ops[*i].starts_with("wsubmit")).map(|i| format!("web-ok {}", i)).collect();
+        cases.push(Case { ops, checks, tag: "long-listing".into(), nontrivial: true, show: format!("LIST of {} lines, then NEW, LIST", len) });
     }
     // NEW then a fixed probe session, against the same probes on a fresh page
     let m = if tier == "thorough" { 300 } else { 40 };
